@@ -257,6 +257,33 @@ package container
 //@ requires [inv] DefInv(self)
 //@ assigns MetasPos
 //@ ensures [sound] forall(i, int, implies(0 <= i && i < len(result), result[i] != nil && self.DefDom[result[i].Name()] && self.Def[result[i].Name()] == result[i]), result[i])
-//@ ensures [complete] implies(len(opts) == 0, forall(n, string, implies(self.DefDom[n], 0 <= MetasPos[n] && MetasPos[n] < len(result) && result[MetasPos[n]] == self.Def[n]), self.DefDom[n]))
+//@ requires [options-callable] forall(j, int, forall(n, string, implies(0 <= j && j < len(opts) && self.DefDom[n], opts[j] != nil && callpre(opts[j], self.Def[n]))))
+//@ ensures [filtered] forall(i, int, forall(j, int, implies(0 <= i && i < len(result) && 0 <= j && j < len(opts), call(opts[j], result[i]))))
+//@ ensures [complete] forall(n, string, implies(self.DefDom[n] && forall(j, int, implies(0 <= j && j < len(opts), call(opts[j], self.Def[n]))), 0 <= MetasPos[n] && MetasPos[n] < len(result) && result[MetasPos[n]] == self.Def[n]), self.DefDom[n])
 //@ ensures [no-dup] forall(i, int, forall(j, int, implies(0 <= i && i < j && j < len(result), result[i] != result[j])))
 //@ ensures [fresh-list] backing(result) == 0 || fresh(result)
+
+// ---- candidate predicates (C06): an Option is a pure predicate on definitions ------------------------------------------
+//@ func Type$1
+//@ property C06
+//@ pure
+//@ requires [meta-built] MetaOK(m)
+//@ assigns nothing
+//@ ensures [exact-type] result == (RTypeOf(m.Value) == typ)
+
+//@ func InterfaceType$1
+//@ property C06
+//@ pure
+//@ requires [meta-built] MetaOK(m)
+//@ assigns nothing
+//@ ensures [implements-interface] result == RImplements(RTypeOf(m.Value), typ)
+
+//@ func Type
+//@ property C06
+//@ assigns nothing
+//@ ensures [exact-type-predicate] result != nil && forall(m, *component_definition.Meta, call(result, m) == (RTypeOf(m.Value) == typ) && callpre(result, m) == MetaOK(m))
+
+//@ func InterfaceType
+//@ property C06
+//@ assigns nothing
+//@ ensures [implements-predicate] result != nil && forall(m, *component_definition.Meta, call(result, m) == RImplements(RTypeOf(m.Value), typ) && callpre(result, m) == MetaOK(m))
